@@ -35,3 +35,48 @@ package codegen
 //@   traverse remap kind ir.ExpressionHandle rmhm(handleMap, $)
 //@   except ExprAlias ExprPhi ExprCompose.Components
 //@   nopanic
+//
+// ---- bounds-check decisions (C15) --------------------------------------------------------
+//
+// Under the `restrict` policy an access is emitted unclamped only when the index
+// is a literal known to be below the static length of the indexed object; in
+// every other case the clamp bound is length-1 of a non-empty object
+// (min(unsigned(i), length-1) < length for every 32-bit i).
+//
+//@ func (*Writer).literalAsUint
+//@   mode bv
+//@   tags C15
+//@   ensures [u32] is(lit.Value, ir.LiteralU32) ==> result1 && result0 == uint32(lit.Value.(ir.LiteralU32))
+//@   ensures [i32-nonneg] is(lit.Value, ir.LiteralI32) && int32(lit.Value.(ir.LiteralI32)) >= 0 ==> result1 && result0 == uint32(int32(lit.Value.(ir.LiteralI32)))
+//@   ensures [i32-negative] is(lit.Value, ir.LiteralI32) && int32(lit.Value.(ir.LiteralI32)) < 0 ==> !result1
+//@   ensures [other] !is(lit.Value, ir.LiteralI32) && !is(lit.Value, ir.LiteralU32) ==> !result1
+//@   pure
+//@   nopanic
+//
+//@ func (*Writer).accessIndexNeedsRestrict
+//@   mode bv
+//@   tags C15
+//@   at return assert [unclamped-only-if-in-bounds] !result1 ==> !ok || length == 0 || index < length
+//@   at return assert [clamp-bound] result1 ==> length > 0 && result0 == length - 1 && index >= length
+//
+//@ func (*Writer).accessNeedsRestrict
+//@   mode bv
+//@   tags C15
+//@   at return assert [clamp-bound] result1 ==> ok && length > 0 && result0 == length - 1
+//@   at return assert [unclamped-literal] !result1 && ok && length != 0 ==> val < length
+//
+//@ func (*Writer).indexableLength
+//@   mode bv
+//@   tags C15
+//@   at return assert [vector] is(baseType, ir.VectorType) ==> result1 && result0 == uint32(baseType.(ir.VectorType).Size)
+//@   at return assert [matrix] is(baseType, ir.MatrixType) ==> result1 && result0 == uint32(baseType.(ir.MatrixType).Columns)
+//@   at return assert [array-fixed] is(baseType, ir.ArrayType) && baseType.(ir.ArrayType).Size.Constant != nil ==> result1 && result0 == *baseType.(ir.ArrayType).Size.Constant
+//@   at return assert [array-runtime] is(baseType, ir.ArrayType) && baseType.(ir.ArrayType).Size.Constant == nil ==> !result1
+//@   at return assert [not-indexable] !isnil(baseType) && !is(baseType, ir.ArrayType) && !is(baseType, ir.VectorType) && !is(baseType, ir.MatrixType) && !is(baseType, ir.ValuePointerType) ==> !result1
+//
+//@ func (*Writer).chooseBoundsCheckPolicy
+//@   mode bv
+//@   tags C15
+//@   at return assert [binding-array] is(ty, ir.BindingArrayType) ==> result == w.options.BoundsCheckPolicies.BindingArray
+//@   at return assert [buffer] !is(ty, ir.BindingArrayType) && ok && (space == ir.SpaceStorage || space == ir.SpaceUniform) ==> result == w.options.BoundsCheckPolicies.Buffer
+//@   at return assert [index] !is(ty, ir.BindingArrayType) && (!ok || (space != ir.SpaceStorage && space != ir.SpaceUniform)) ==> result == w.options.BoundsCheckPolicies.Index
